@@ -22,7 +22,7 @@ RULE = (
     "(quick) / much larger sample (thorough); plus solver-acceptance cases. A tree is non-trivial "
     "when it contains >= 1 Parameter leaf and all six checks ran; distinct = distinct tree text"
 )
-REQUIRED_COUNTERS = ["value_checks", "flag_checks", "equality_checks", "clear_cache_checks", "pickle_checks", "solver_checks"]
+REQUIRED_COUNTERS = ["value_checks", "repeat_evaluation_checks", "flag_checks", "equality_checks", "clear_cache_checks", "pickle_checks", "solver_checks"]
 CASE_TIMEOUT = {"quick": 600, "thorough": 3000}
 EXHAUSTIVE = {"quick": False, "thorough": False}
 ASSUMPTIONS = ["the raw leaf functions and Python's operator module define pointwise arithmetic"]
@@ -80,11 +80,18 @@ def ref_leaf(kind, variant, x, y, z, t):
     return r.item() if r.ndim == 0 else r
 
 
-def build(tree):
+def build(tree, shared=None):
+    """shared: dict -> the same leaf object is used for every occurrence of a leaf (as in
+    user code like `w * 2 + w`); None -> a fresh object per occurrence."""
     if tree[0] == "leaf":
-        return make_leaf(tree[1], tree[2])
+        if shared is None:
+            return make_leaf(tree[1], tree[2])
+        key = (tree[1], tree[2])
+        if key not in shared:
+            shared[key] = make_leaf(tree[1], tree[2])
+        return shared[key]
     _, op, l, r = tree
-    return OPS[op](build(l), build(r))
+    return OPS[op](build(l, shared), build(r, shared))
 
 
 def ref_eval(tree, x, y, z, t):
@@ -217,6 +224,37 @@ def check_tree(tree, rng, V, C):
         (float(xs[0]), float(ys[0]), float(zs[0]), None), (xs, ys, zs, None),
         (float(xs[0]), float(ys[0]), float(zs[0]), 0.37), (xs, ys, zs, 0.37), (xs, ys, zs, 1.9),
     ]
+    # the same expression with shared leaf objects, evaluated repeatedly at the same arguments:
+    # values must not depend on evaluation history (caches, aliasing of operand values)
+    try:
+        leaves = {}
+        comp_shared = build(tree, leaves)
+        for (x, y, z, t) in ((xs, ys, zs, 0.37), (xs, ys, zs, 0.37), (xs, ys, zs, 1.9), (xs, ys, zs, 0.37)):
+            try:
+                with np.errstate(all="ignore"):
+                    want = ref_eval(tree, x, y, z, t)
+            except Exception:
+                break
+            C["repeat_evaluation_checks"] = C.get("repeat_evaluation_checks", 0) + 1
+            with np.errstate(all="ignore"):
+                got = comp_shared(x, y, z, t)
+            if not _eq(got, want):
+                viol("value_depends_on_evaluation_history", "value_depends_on_evaluation_history", {"t": t, "got": np.asarray(got).tolist(), "want": np.asarray(want).tolist()})
+                break
+            # operands themselves still evaluate correctly
+            for (kind, variant), leaf in leaves.items():
+                if kind in ("int", "float"):
+                    continue
+                try:
+                    lw = ref_leaf(kind, variant, x, y, z, t)
+                except Exception:
+                    continue
+                lg = leaf(x, y, z, t) if kind == "PT" else leaf(x, y, z)
+                if not _eq(lg, lw):
+                    viol("operand_corrupted_by_composite_evaluation", "value_depends_on_evaluation_history", {"leaf": kind, "t": t})
+                    break
+    except Exception as exc:
+        viol("shared_leaf_evaluation_raised", "composite_evaluation_failed", {"error": repr(exc)[:200]})
     for (x, y, z, t) in argsets:
         C["value_checks"] = C.get("value_checks", 0) + 1
         try:
